@@ -26,7 +26,10 @@ def weight(h):
 
 
 def timeout_for(h, tier):
-    return TIMEOUT[tier]
+    # VERIF_CAP: calibration runs use a much tighter cap than the registered one, so that what
+    # stays in a tier has a wide margin on slower machines
+    import os
+    return int(os.environ.get("VERIF_CAP") or TIMEOUT[tier])
 
 
 GLUE = ("Mp4Reader::read_header / read_fragment_header and the Mp4Reader dispatch by track id "
@@ -235,11 +238,13 @@ PROPS = {
         design_ref="DESIGN.md 5.18",
         level_text="The real MetaBox / IlstBox / IlstItemBox / DataBox decoders run on reference-encoded input with symbolic payloads (meta with and "
                    "without the version/flags word, symbolic non-mdir handler, mdir without ilst, empty ilst, unknown items of symbolic type) and the "
-                   "real Metadata impls run on what they return: absence cases in the quick tier; one known item (year binary 4/5 bytes, poster, "
-                   "title) preceded by an unknown item in the thorough tier (one HashMap insert costs minutes of solver time).",
+                   "real Metadata impls run on what they return: absence cases (no udta, no meta, other handler, mdir without ilst) and the value-level item "
+                   "conversions (binary year of 0/3/4/5 bytes, other data types) in the quick tier, the 8-byte binary item in the thorough tier. "
+                   "Presence through the HashMap (x_h18one), the empty / unknown-only item list and text items (from_utf8_lossy, parse) do not "
+                   "finish and are excluded (listed in the evidence under excluded_harnesses).",
         level_note="Mp4Reader::metadata() only selects moov.udta.meta(mdir).ilst; that selection is re-stated in the harness (reader glue is outside). Lists with more than one known item, long payloads and lossy UTF-8 decoding are outside. " + GLUE,
-        bounds="payloads <= 5 bytes, at most one known item plus one unknown item",
-        outside="several known items in one list, payloads > 5 bytes, invalid UTF-8, Mp4Reader::metadata() on a real reader",
+        bounds="item payloads of 0, 3, 4, 5 (thorough: 8) symbolic bytes after a 2-byte unknown child; meta with/without version word; symbolic non-mdir handler",
+        outside="the key-to-item HashMap wiring (any list with a known item), empty and unknown-only item lists, text-typed items, payloads > 8 bytes, invalid UTF-8, Mp4Reader::metadata() on a real reader",
         assumptions=COMMON_ASSUME + ["text payloads are ASCII"],
     ),
     "C16": dict(
